@@ -1661,3 +1661,223 @@ func VerifC17UT(typ, pos, n int, tmpl string) {
 		}
 	}
 }
+
+// VerifC17UOpts: inside UnmarshalJSONFrom (api 0 Unmarshal, 1 UnmarshalRead, 2 UnmarshalDecode
+// on a decoder built with part of the options) dec.Options() shows exactly the caller's
+// options; with reset the method tries dec.Reset, which must panic and change nothing.
+func VerifC17UOpts(typ, pos, api int, reset bool) {
+	zz17Reset()
+	bU, bD, bS, bR := vrt.Bool("u"), vrt.Bool("d"), vrt.Bool("s"), vrt.Bool("r")
+	var gU, gD, gS, gR, okAll, panicked bool
+	zz17FromFn = func(dec *jsontext.Decoder, set func(int8)) error {
+		o := dec.Options()
+		var o1, o2, o3, o4 bool
+		gU, o1 = GetOption(o, jsontext.AllowInvalidUTF8)
+		gD, o2 = GetOption(o, jsontext.AllowDuplicateNames)
+		gS, o3 = GetOption(o, StringifyNumbers)
+		gR, o4 = GetOption(o, RejectUnknownMembers)
+		okAll = o1 && o2 && o3 && o4
+		if reset {
+			panicked = vrt.Misuse(func() { dec.Reset(bytes.NewReader([]byte("[]"))) })
+		}
+		set(zz17TagFrom)
+		return dec.SkipValue()
+	}
+	in := []byte(zz17UWrap(pos, zz17UInput(zz17TagFrom, pos)))
+	var vals []int8
+	var ok bool
+	var err error
+	switch api {
+	case 0:
+		vals, ok, err = zz17UDo(typ, pos, in, jsontext.AllowInvalidUTF8(bU), jsontext.AllowDuplicateNames(bD), StringifyNumbers(bS), RejectUnknownMembers(bR))
+	case 1:
+		var v zz17UAll
+		err = UnmarshalRead(bytes.NewReader(in), &v, jsontext.AllowInvalidUTF8(bU), jsontext.AllowDuplicateNames(bD), StringifyNumbers(bS), RejectUnknownMembers(bR))
+		vals, ok = []int8{int8(v)}, true
+	default:
+		var v zz17UAll
+		dec := jsontext.NewDecoder(bytes.NewReader(in), jsontext.AllowInvalidUTF8(bU), jsontext.AllowDuplicateNames(bD))
+		err = UnmarshalDecode(dec, &v, StringifyNumbers(bS), RejectUnknownMembers(bR))
+		vals, ok = []int8{int8(v)}, true
+	}
+	vrt.Assert("C17/uopts/called", zz17LogIs(zz17TagFrom))
+	vrt.Assert("C17/uopts/options-are-the-callers", okAll && gU == bU && gD == bD && gS == bS && gR == bR)
+	if reset {
+		vrt.Cover("reset-tried")
+		vrt.Assert("C17/uopts/reset-panics", panicked)
+	}
+	vrt.Assert("C17/uopts/outcome-intact", err == nil && ok && zz17ValsAre(vals, 1, zz17TagFrom))
+	vrt.Cover("done")
+}
+
+var (
+	zz17UFFromFn [3]func(dec *jsontext.Decoder, set func(int8)) error // list element i built by UnmarshalFromFunc
+	zz17UFJFn    [3]func(b []byte, set func(int8)) error              // ... by UnmarshalFunc
+)
+
+// zz17UFunc builds unmarshal list element i: kind 'T' UnmarshalFromFunc / 'J' UnmarshalFunc on
+// target 'p' *T, 'i' the interface zz17Marker (implemented by *T), 'o' an unrelated type.
+func zz17UFunc[T ~int8, PT interface {
+	*T
+	zz17Marker
+}](i int, kind, target byte) *Unmarshalers {
+	setp := func(p *T) func(int8) { return func(x int8) { *p = T(x) } }
+	if kind == 'T' {
+		switch target {
+		case 'p':
+			return UnmarshalFromFunc(func(dec *jsontext.Decoder, v *T) error {
+				zz17FLog(10+i, v == nil)
+				return zz17UFFromFn[i](dec, setp(v))
+			})
+		case 'i':
+			return UnmarshalFromFunc(func(dec *jsontext.Decoder, v zz17Marker) error {
+				p, ok := v.(PT)
+				zz17FLog(10+i, !ok || p == nil)
+				return zz17UFFromFn[i](dec, setp((*T)(p)))
+			})
+		default:
+			return UnmarshalFromFunc(func(dec *jsontext.Decoder, v *zz17Other) error {
+				zz17FLog(10+i, v == nil)
+				return zz17UFFromFn[i](dec, func(int8) {})
+			})
+		}
+	}
+	switch target {
+	case 'p':
+		return UnmarshalFunc(func(b []byte, v *T) error {
+			zz17FLog(10+i, v == nil)
+			return zz17UFJFn[i](b, setp(v))
+		})
+	case 'i':
+		return UnmarshalFunc(func(b []byte, v zz17Marker) error {
+			p, ok := v.(PT)
+			zz17FLog(10+i, !ok || p == nil)
+			return zz17UFJFn[i](b, setp((*T)(p)))
+		})
+	default:
+		return UnmarshalFunc(func(b []byte, v *zz17Other) error {
+			zz17FLog(10+i, v == nil)
+			return zz17UFJFn[i](b, func(int8) {})
+		})
+	}
+}
+
+func zz17UList[T ~int8, PT interface {
+	*T
+	zz17Marker
+}](spec string, nest bool) *Unmarshalers {
+	var us []*Unmarshalers
+	for i := 0; 2*i < len(spec); i++ {
+		us = append(us, zz17UFunc[T, PT](i, spec[2*i], spec[2*i+1]))
+	}
+	if nest && len(us) >= 2 {
+		return JoinUnmarshalers(nil, us[0], JoinUnmarshalers(us[1:]...))
+	}
+	return JoinUnmarshalers(us...)
+}
+
+// VerifC17UFuncs: WithUnmarshalers(list) of up to three scripted functions for a destination
+// of type typ (0: all methods, 5: none) at position pos; the input value is the number 7 (a
+// string as a map key). Behaviours: handle (consume the value, store the function's tag) /
+// ErrUnsupported untouched / (UnmarshalFromFunc) read then ErrUnsupported, own error, return
+// nil without reading / (UnmarshalFunc) ErrUnsupported (not allowed: error), own error.
+// Documented: applicable functions (target *T or an interface *T implements) are called in list
+// order with a non-nil pointer, the first that does not skip decides, then methods, then the
+// default. Round 2: same Unmarshalers value, all functions skip.
+func VerifC17UFuncs(typ, pos int, spec string, nest bool) {
+	var us *Unmarshalers
+	if typ == 0 {
+		us = zz17UList[zz17UAll](spec, nest)
+	} else {
+		us = zz17UList[zz17UNone](spec, nest)
+	}
+	chain := zz17UMethods(typ)
+	n := len(spec) / 2
+	for round := 0; round < 2; round++ {
+		zz17Reset()
+		var beh [3]int
+		for i := 0; i < n; i++ {
+			i := i
+			if spec[2*i] == 'T' {
+				if round == 0 {
+					beh[i] = vrt.Choice("beh"+zzItoa17(i), 5)
+				} else {
+					beh[i] = 1
+				}
+				zz17UFFromFn[i] = func(dec *jsontext.Decoder, set func(int8)) error {
+					switch beh[i] {
+					case 0:
+						set(int8(zz17TagU1 + i))
+						return dec.SkipValue()
+					case 1:
+						return errors.ErrUnsupported
+					case 2:
+						dec.ReadToken()
+						return errors.ErrUnsupported
+					case 3:
+						return zz17ErrUser
+					default:
+						return nil
+					}
+				}
+			} else {
+				if round == 0 {
+					beh[i] = vrt.Choice("beh"+zzItoa17(i), 3)
+				}
+				zz17UFJFn[i] = func(b []byte, set func(int8)) error {
+					switch beh[i] {
+					case 0:
+						set(int8(zz17TagU1 + i))
+						return nil
+					case 1:
+						return zz17WrapUnsup{}
+					default:
+						return zz17ErrUser
+					}
+				}
+			}
+		}
+		var want []int
+		wantErr, decided := false, false
+		var result int8
+		for i := 0; i < n && !decided; i++ {
+			if spec[2*i+1] == 'o' {
+				continue
+			}
+			want = append(want, zz17TagU1+i)
+			if beh[i] == 0 {
+				decided, result = true, int8(zz17TagU1+i)
+			} else if spec[2*i] == 'T' && beh[i] == 1 {
+				continue
+			} else {
+				decided, wantErr = true, true
+			}
+		}
+		if !decided {
+			used := 0
+			if len(chain) > 0 {
+				used = chain[0]
+				want = append(want, used)
+			}
+			result = zz17UResult(used)
+		}
+		calls := zz17UCalls(pos)
+		if calls == 2 && !wantErr {
+			want = append(want, want...)
+		}
+		vals, ok, err := zz17UDo(typ, pos, []byte(zz17UWrap(pos, zz17UInput(0, pos))), WithUnmarshalers(us))
+		vrt.Assert("C17/ufuncs/no-nil-pointer", !zz17NilRecv)
+		vrt.Assert("C17/ufuncs/list-order", zz17LogIs(want...))
+		if wantErr {
+			vrt.Cover("error")
+			vrt.Assert("C17/ufuncs/misbehaviour-reported", err != nil)
+		} else {
+			if decided {
+				vrt.Cover("function-decides")
+			} else {
+				vrt.Cover("all-skipped")
+			}
+			vrt.Assert("C17/ufuncs/stored", err == nil && ok && zz17ValsAre(vals, calls, result))
+		}
+	}
+}
